@@ -294,31 +294,31 @@ def tool_read(path):
     return v, offsets, hl
 
 
-def diff(exp, got, pre=""):
+def diff(exp, got, pre=()):
+    """[(key path, expected, got)] of the leaves that differ"""
     out = []
     if isinstance(exp, dict) and isinstance(got, dict):
         for k in sorted(set(exp) | set(got), key=repr):
             if k not in got:
-                out.append((f"{pre}[{k!r}]", exp[k], "<absent>"))
+                out.append((pre + (k,), exp[k], "<absent>"))
             elif k not in exp:
-                out.append((f"{pre}[{k!r}]", "<absent>", got[k]))
+                out.append((pre + (k,), "<absent>", got[k]))
             else:
-                out += diff(exp[k], got[k], f"{pre}[{k!r}]")
+                out += diff(exp[k], got[k], pre + (k,))
     elif exp != got:
         out.append((pre, exp, got))
     return out
 
 
-def field_class(where):
+def field_class(keys):
     """stable label of the differing field: top-level key and, for records, the record field"""
-    keys = [k.strip("'\"") for k in where.replace("]", "").split("[") if k]
     if not keys:
         return "whole"
     if keys[0] == "records":
-        return "records." + (keys[2] if len(keys) > 2 else "path")
+        return "records." + (str(keys[2]) if len(keys) > 2 else "path")
     if keys[0] == "creator":
-        return "creator." + (keys[1] if len(keys) > 1 else "")
-    return keys[0]
+        return "creator." + (str(keys[1]) if len(keys) > 1 else "")
+    return str(keys[0])
 
 
 def short(x, n=160):
@@ -328,11 +328,12 @@ def short(x, n=160):
 
 def report(run, cid, exp, got, side_exp, side_got, layer, fname, inp=None, limit=4):
     ds = diff(exp, got)
-    for where, e, g in ds[:limit]:
+    for keys, e, g in ds[:limit]:
+        where = "".join(f"[{k!r}]" for k in keys)
         run.violation(
             cid,
             f"{fname}: {where}: {side_exp} {short(e)} but {side_got} {short(g)}",
-            f"{layer}/{side_got.split()[0]}/{field_class(where)}",
+            f"{layer}/{side_got.split()[0]}/{field_class(keys)}",
             inp=inp,
         )
     return len(ds)
@@ -1240,7 +1241,7 @@ def world_cases(run, rnd):
             yield cid, ("generations", ngen, variant), case
 
     # W3 renames detected with -dr: previous paths
-    pairs = [("a&b.txt", "c<d>.txt"), ("sp ace.bin", " lead.bin"), ("\u00e9.bin", "e\u0301.bin"), ("x\u2028y", "x\u2029y"), ("q'uote", 'q"uote'), ("plain.bin", "&amp;.bin")]
+    pairs = [("a&b.txt", "c<d>.txt"), ("sp ace.bin", " lead.bin"), ("\u00e9.bin", "e\u0301.bin"), ("e\u0301 2.bin", "\u00e9 2.bin"), ("x\u2028y", "x\u2029y"), ("q'uote", 'q"uote'), ("plain.bin", "&amp;.bin")]
     if thorough:
         names = [t for t in TEXTS if name_ok(t)]
         pairs += [(names[i], names[(i * 5 + 1) % len(names)] + ".r") for i in range(len(names))]
